@@ -964,4 +964,56 @@ theorem fileIs_eq {f : Option Module} {m : Module} (h : fileIs f m = true) : f =
 
 theorem isNone_eq {α : Type} {o : Option α} (h : o.isNone = true) : o = none := by
   cases o <;> simp_all
+
+/-! ### several kinds in one file -/
+
+theorem Files.get_set (f : Files) (a b : Kind) (m : Option Module) :
+    (f.set a m).get b = if a = b then m else f.get b := by
+  cases a <;> cases b <;> simp [Files.get, Files.set]
+
+/-- a file's history through one run when several kinds may name it: a chain of `_conform_filename` frames, one per kind
+    that was processed on this file, in processing order -/
+inductive FrameChain : List (List String) → Option Module → Option Module → Prop
+  | nil (f : Option Module) : FrameChain [] f f
+  | cons {p : List String} {ps : List (List String)} {f g h : Option Module} :
+      FileFrame p f g → FrameChain ps g h → FrameChain (p :: ps) f h
+
+theorem syncLoopAt_chain (E : Emitters IR) (paths : Kind → List String) (slot : Kind → Kind) (ir : IR) (k' : Kind) :
+    ∀ (ks : List Kind) (r : Run), ∃ ps, FrameChain ps (r.files.get k') ((syncLoopAt E paths slot ir ks r).files.get k') ∧
+      ∀ p ∈ ps, ∃ k ∈ ks, slot k = k' ∧ p = paths k
+  | [], r => ⟨[], .nil _, by simp⟩
+  | k :: ks, r => by
+    simp only [syncLoopAt]
+    cases hc : conform E k (paths k) ir (r.files.get (slot k)) with
+    | error e => exact ⟨[], .nil _, by simp⟩
+    | ok res =>
+      obtain ⟨file', flag⟩ := res
+      simp only
+      obtain ⟨ps, c1, c2⟩ := syncLoopAt_chain E paths slot ir k' ks
+        { files := r.files.set (slot k) file', flags := r.flags ++ [(k, flag)], err := none }
+      simp only [Files.get_set] at c1
+      by_cases hs : slot k = k'
+      · subst hs
+        simp only [if_true] at c1
+        refine ⟨paths k :: ps, .cons ?_ c1, ?_⟩
+        · exact conform_frame' E k (paths k) ir _ _ flag hc
+        · intro p hp
+          rcases List.mem_cons.mp hp with rfl | hp
+          · exact ⟨k, List.mem_cons_self .., rfl, rfl⟩
+          · obtain ⟨k2, h1, h2, h3⟩ := c2 p hp
+            exact ⟨k2, List.mem_cons_of_mem _ h1, h2, h3⟩
+      · simp only [hs, if_false] at c1
+        refine ⟨ps, c1, ?_⟩
+        intro p hp
+        obtain ⟨k2, h1, h2, h3⟩ := c2 p hp
+        exact ⟨k2, List.mem_cons_of_mem _ h1, h2, h3⟩
+
+theorem syncLoopAt_id (E : Emitters IR) (paths : Kind → List String) (ir : IR) :
+    ∀ (ks : List Kind) (r : Run), syncLoopAt E paths id ir ks r = syncLoop E paths ir ks r
+  | [], r => rfl
+  | k :: ks, r => by
+    simp only [syncLoopAt, syncLoop, id]
+    cases conform E k (paths k) ir (r.files.get k) with
+    | error e => rfl
+    | ok res => exact syncLoopAt_id E paths ir ks _
 end Sync
